@@ -843,6 +843,23 @@ func ruleC14Direction(c *Ctx, cts []cursorType) {
 				ok, why = false, bad
 			}
 		}
+		if ok && d == "reverse" && seekFn != nil {
+			// a Seek that steps back through the type's own Next() relies on Next() moving the bolt cursor whatever
+			// the cursor's state was before the Seek (the remembered key is the one from BEFORE the seek)
+			viaNext := false
+			for _, call := range callsIn(seekFn) {
+				if cal, _ := calleeOf(call.Common()); cal != nil && cal == nextFn.Object() {
+					viaNext = true
+				}
+			}
+			if viaNext && !noPathAvoiding(nextFn, func(in ssa.Instruction) bool {
+				call, isCall := in.(ssa.CallInstruction)
+				return isCall && isCallTo(call, prev)
+			}, nil) {
+				ok = false
+				why = "reverse Seek steps back through Next(), but Next() does not move the bolt cursor on every path (it looks at the state remembered from before the Seek): a Seek on an exhausted cursor stays invalid although an element <= target exists"
+			}
+		}
 		if ok && d == "forward" && seekFn != nil {
 			for _, call := range callsIn(seekFn) {
 				if isCallTo(call, prev) {
@@ -920,7 +937,45 @@ func ruleC14Direction(c *Ctx, cts []cursorType) {
 			c.Check(ok, "C14.DIRECTION", construct, p.Pos(call.Pos()), "the "+d+" constructor is chosen exactly when the direction flag says so", "the direction flag selects the opposite cursor kind")
 		}
 	}
+	// (3) a function that hands out a set cursor and is told the direction uses what it is told: a direction
+	// parameter nothing reads means one of the two directions is served with the other's cursor
+	for _, fn := range c.prodFuncs("boltz") {
+		if fn.Parent() != nil || fn.Blocks == nil || fn.Signature.Results().Len() != 1 || !isSetCursorIface(fn.Signature.Results().At(0).Type()) {
+			continue
+		}
+		for _, prm := range fn.Params {
+			if !types.Identical(prm.Type(), types.Typ[types.Bool]) || prm.Name() == "_" {
+				continue
+			}
+			used := false
+			if refs := prm.Referrers(); refs != nil {
+				for _, r := range *refs {
+					if _, dbg := r.(*ssa.DebugRef); !dbg {
+						used = true
+					}
+				}
+			}
+			c.Analysed(FnName(fn))
+			c.Check(used, "C14.DIRECTION", FnName(fn)+": direction parameter "+prm.Name(), p.Pos(fn.Pos()), "the direction the caller asks for is looked at", "the function hands out a set cursor but never looks at its direction parameter "+prm.Name()+": a caller asking for the reverse cursor is served the forward one (ascending enumeration, Seek landing on the first element >= v)")
+		}
+	}
 	c.Floor("C14.DIRECTION", 8)
+}
+
+// isSetCursorIface: an interface type with the set cursor's three methods.
+func isSetCursorIface(t types.Type) bool {
+	it, ok := t.Underlying().(*types.Interface)
+	if !ok {
+		return false
+	}
+	n := 0
+	for i := 0; i < it.NumMethods(); i++ {
+		switch it.Method(i).Name() {
+		case "IsValid", "Next", "Current":
+			n++
+		}
+	}
+	return n == 3
 }
 
 // ---- WRAP: wrapping cursors normalise their position -----------------------------------------
